@@ -206,7 +206,7 @@ func (p *Prog) lvbiRange(v ssa.Value) (*big.Int, string, bool) {
 			for _, ins := range b.Instrs {
 				switch x := ins.(type) {
 				case *ssa.Store:
-					if k, _, ok := classOfAddr(x.Addr); ok && k.same(cls) {
+					if k, _, ok := classOfAddr(x.Addr); ok && k.same(cls) && !storeIntoPrivateTemp(x) {
 						return nil, "", false
 					}
 				case *ssa.Call:
